@@ -495,7 +495,13 @@ class Peer:
         """Reads KEEPALIVE message using async I/O"""
         assert self.proto is not None
         assert self.recv_timer is not None
-        message = await self.proto.read_keepalive()
+        # the hold timer runs with the negotiated value while waiting for the KEEPALIVE (RFC 4271 8.2.2,
+        # OpenConfirm); a negotiated hold time of zero means the timer is not started
+        holdtime = int(self.recv_timer.holdtime)
+        try:
+            message = await asyncio.wait_for(self.proto.read_keepalive(), timeout=holdtime if holdtime else None)
+        except asyncio.TimeoutError:
+            raise Notify(self.recv_timer.code, self.recv_timer.subcode, self.recv_timer.message) from None
         self.recv_timer.check_ka_timer(message)
 
     async def _establish(self) -> None:
